@@ -144,7 +144,53 @@ def mutants(only=None, catalogue=None):
     return 2 if bad else 0
 
 
+def known(seed):
+    """The known-findings path, exercised on scratch copies (the committed list is empty): a listed finding
+    must print KNOWN-FINDING and leave exit 0; a different violation of the same property must still exit 1."""
+    with open(os.path.join(VERIF, 'mutants', 'mutants.json')) as f:
+        ms = {m['name']: m for m in json.load(f)}
+    bad = 0
+    scratch = tempfile.mkdtemp(prefix='acetime-known-')
+    try:
+        kf = os.path.join(scratch, 'known.json')
+        with open(kf, 'w') as f:
+            json.dump({'findings': [{
+                'id': 'TEST-D4', 'property': 'C13', 'vclass': 'c13-exact',
+                # every minimised D4 trace re-sets a clock that was already set; a drift bug needs one SET only
+                'trace_regex': r'SET -?\d+\n(?:.*\n)*?(?:SET -?\d+|SETUP)\n',
+                'what': 'setNow(T) ignored when T equals the stale internal second (self-test entry)'}], 'fixed': []}, f)
+        for label, names, want_rc, want_known in (
+                ('listed finding only', ['c13-revert-d4'], 0, True),
+                ('listed finding plus a different violation', ['c13-revert-d4', 'c13-gt-1000'], 1, None)):
+            root = os.path.join(scratch, label.replace(' ', '_'))
+            shutil.copytree(os.path.join(B.REPO, 'src'), os.path.join(root, 'src'))
+            for n in names:
+                _apply(root, ms[n])
+            out = os.path.join(root, 'out')
+            os.makedirs(out)
+            env = dict(os.environ)
+            env.update({'VERIF_REPO': root, 'VERIF_OUT': out, 'VERIF_KNOWN': kf, 'VERIF_SEED': str(seed)})
+            p = subprocess.run([os.path.join(VERIF, 'bin', 'vcheck'), 'C13', '--runs', '3000'], env=env,
+                               stdout=subprocess.PIPE, stderr=subprocess.PIPE, text=True, timeout=3600)
+            has_known = 'KNOWN-FINDING: property=C13' in p.stdout
+            has_viol = 'VIOLATION property=C13' in p.stdout
+            ok = p.returncode == want_rc and (want_known is None or has_known == want_known) and (has_viol == (want_rc == 1))
+            print('known-findings %-45s exit %d known-line=%s violation-line=%s : %s'
+                  % (label, p.returncode, has_known, has_viol, 'ok' if ok else 'UNEXPECTED'))
+            if not ok:
+                bad += 1
+                print(p.stdout[-600:], p.stderr[-600:])
+                for f in os.listdir(os.path.join(out, 'replays')) if os.path.isdir(os.path.join(out, 'replays')) else []:
+                    with open(os.path.join(out, 'replays', f)) as fh:
+                        print(json.load(fh)['minimised_trace'])
+    finally:
+        shutil.rmtree(scratch, ignore_errors=True)
+    return 2 if bad else 0
+
+
 def main(which, seed):
+    if which == 'known':
+        return known(seed)
     if which == 'determinism':
         return determinism(seed)
     if which and which.startswith('mutants'):
